@@ -113,6 +113,29 @@ def virtual_time(clock):
         H.time = saved
 
 
+# the argument forms a caller can hand a firmware binary (or one block of it) in: the byte VALUES are the same in
+# all of them; 'str' is the legacy one-character-per-byte text form (chr(b) for every byte b, 00h..FFh) that
+# Hpm.upload_firmware_block has its isinstance(data, str) branch for
+FORMS = ('bytes', 'bytearray', 'list', 'array', 'str')
+
+
+def to_form(binary, form):
+    """the binary (bytes) as the argument object of the given form"""
+    from array import array
+    binary = bytes(bytearray(binary))
+    if form == 'bytes':
+        return binary
+    if form == 'bytearray':
+        return bytearray(binary)
+    if form == 'list':
+        return list(binary)
+    if form == 'array':
+        return array('B', binary)
+    if form == 'str':
+        return ''.join(chr(b) for b in binary)
+    raise ValueError(form)
+
+
 def plan_token(item):
     if item[0] == 'f':
         return 'f%d.%d' % (item[1], item[2])
